@@ -195,8 +195,8 @@ def project_json_empty() -> dict:
             'aggr': [], 'comm': [], 'originator': [], 'cluster': [], 'unknown': [], 'extra': []}
 
 
-def gen_rows(ck: Check, module: str, width: int, label: str, invariants=('CodecSelfCheck',)):
-    cfg = f'SPECIFICATION GenSpec\nCONSTANT Width = {width}\n' + ''.join(f'INVARIANT {i}\n' for i in invariants) + 'CHECK_DEADLOCK FALSE\n'
+def gen_rows(ck: Check, module: str, width: int, label: str, invariants=('CodecSelfCheck',), extra_cfg: str = ''):
+    cfg = f'SPECIFICATION GenSpec\nCONSTANT Width = {width}\n' + ''.join(f'INVARIANT {i}\n' for i in invariants) + extra_cfg + 'CHECK_DEADLOCK FALSE\n'
     res, states = tlc.dump_states(module, '', f'upd-{label}', ['u', 'bytes'], cfg_text=cfg, workers=16)
     ck.tlc(res, f'{module} {label}: abstract UPDATEs within {width} field changes of the base; invariant(s) {", ".join(invariants)}')
     if not res.ok:
